@@ -28,7 +28,7 @@ def ctl(families_q, families_t, dq, dt, rule, required, nontrivial=None, emit_q=
 
 
 PLANS = {
-    "C01": ctl(["reap", "force", "crash", "overmax", "linger", "all_reap", "all_overmax"], ["reap", "reap@v2", "force", "crash", "overmax", "cordon", "linger", "lag", "all_reap", "all_overmax"],
+    "C01": ctl(["reap", "force", "crash", "overmax", "linger", "all_reap", "all_overmax"], ["reap", "reap@v2", "force", "crash", "overmax", "cordon", "linger", "all_reap", "all_overmax"],
                [D("reap", odd=True, faults=12, enum=10, twin=True), D("mix", lag=True, odd=True, twin=True), D("cycle", n=20, steps=90, groups=1, faults=3, dry=0, twin=True),
                 D("overmax", n=24, steps=70, groups=1, faults=3, dry=0, twin=True),
                 # real time (4 s ticks, really elapsing): time the controller remembers by itself ages too
@@ -41,7 +41,7 @@ PLANS = {
                "non-trivial: a scan in which a node was removed under clause (a), (b) or (c), or a tainted / force-tainted / cordoned node was kept; distinct by (pre-state, fault set)",
                ["C01:crashed-mid-scan", "C01:removed-a", "C01:removed-b", "C01:removed-c", "C01:kept-soft-not-passed", "C01:kept-busy-before-hard",
                 "C01:kept-unreadable-taint-time", "C01:kept-cordoned", "C01:kept-force-busy", "C01:restart-twin", "C01:over-max-with-busy-tainted-node"]),
-    "C02": ctl(["lock"], ["lock", "lock@v2", "lock@v3"],
+    "C02": ctl(["lock"], ["lock", "lock@v2"],
                [D("lock", twin=True, faults=8), D("mix", twin=True), D("lock", n=32, steps=32, procs=1, par=32, groups=2, faults=5, realtime="4s"),
                 D("lock", n=3, steps=45, procs=8, faults=20, refresh=True, groups=2)],
                [D("lock", n=60, steps=100, procs=8, twin=True, faults=8), D("mix", n=40, steps=100, procs=8, twin=True),
@@ -50,27 +50,27 @@ PLANS = {
                "cases: model states + seeded histories with a twin scan (same world, fresh controller) at every scan; non-trivial: a scan inside a cool-down "
                "(incl. below-minimum and removable nodes), or a scan after the cool-down in which the group is acted on again",
                ["C02:scan-in-cooldown", "C02:cooldown-below-min", "C02:cooldown-removable", "C02:acts-after-cooldown", "C02:twin-acts", "C02:refresh-failed-in-cooldown", "C02:cloud-call-took-a-tick"]),
-    "C03": ctl(["updown", "auto", "conflict", "all_scale"], ["updown", "updown@v2", "updown@v3", "auto", "lock", "conflict", "all_scale"],
+    "C03": ctl(["updown", "auto", "conflict", "all_scale"], ["updown", "updown@v2", "auto", "conflict", "all_scale"],
                [D("down", faults=10), D("mix")],
                [D("down", n=60, steps=100, procs=8, faults=10), D("mix", n=60, steps=100, procs=8)],
                "non-trivial: a scan that tainted nodes (in particular down to exactly the minimum, or under auto-discovered bounds) or ran the below-minimum recovery",
                ["C03:tainted", "C03:tainted-down-to-min", "C03:tainted-auto", "C03:recovery"]),
-    "C04": ctl(["updown", "auto", "asgedit", "forceup@bound", "all_scale"], ["updown", "updown@v2", "updown@v3", "auto", "asgedit", "forceup", "forceup@bound", "all_scale"],
+    "C04": ctl(["updown", "auto", "asgedit", "forceup@bound", "all_scale"], ["updown", "updown@v2", "auto", "asgedit", "forceup", "forceup@bound", "all_scale"],
                [D("up", faults=8), D("mix")],
                [D("up", n=60, steps=100, procs=8, faults=8), D("mix", n=60, steps=100, procs=8)],
                "non-trivial: a scan that asked the cloud for capacity (with max_nodes below / above the cloud maximum, landing on the bound or not)",
                ["C04:request", "C04:request-on-bound", "C04:max_nodes-below-cloud-max", "C04:max_nodes-above-cloud-max"]),
-    "C06": ctl(["updown", "all_scale"], ["updown", "updown@v2", "updown@v3", "updown@v4", "auto", "conflict", "all_scale"],
+    "C06": ctl(["updown", "all_scale"], ["updown", "updown@v3", "updown@v4", "conflict", "all_scale"],
                [D("down", faults=0, dry=0), D("up", faults=0, dry=0, fine=True), D("mix", faults=0, dry=0, fine=True), D("down", faults=40, dry=0, nodes=8)],
                [D("down", n=60, steps=100, procs=6, faults=0, dry=0), D("up", n=60, steps=100, procs=6, faults=0, dry=0, fine=True), D("mix", n=60, steps=100, procs=6, faults=0, dry=0, fine=True), D("down", n=60, steps=100, procs=6, faults=40, dry=0, nodes=8)],
                "non-trivial: a fault-free scan of an unlocked, in-bounds group, classified by the exact band of max(cpu%, mem%) (incl. exactly on a threshold) and by the starve / max-age triggers",
                ["C06:band-fast", "C06:band-slow", "C06:band-none", "C06:band-up", "C06:on-threshold", "C06:starve", "C06:max-age", "C06:taint-band-with-failing-node-write"]),
-    "C07": ctl(["updown", "forceup", "lag", "all_scale"], ["updown", "updown@v2", "updown@v3", "forceup", "lock", "lag", "all_scale"],
+    "C07": ctl(["updown", "forceup", "lag", "all_scale"], ["updown", "updown@v2", "forceup", "lag", "all_scale"],
                [D("up", faults=25, lag=True), D("mix", faults=20, lag=True)],
                [D("up", n=60, steps=100, procs=8, faults=25, lag=True), D("mix", n=60, steps=100, procs=8, faults=20, lag=True)],
                "non-trivial: a scale-up scan (band decision or below-minimum recovery), esp. with tainted nodes reused, capacity bought after reuse or after a same-scan removal, creation-time ties",
                ["C07:scale-up", "C07:reused", "C07:reused-and-bought", "C07:removed-then-bought", "C07:ties", "C07:stale-view-lists-a-vanished-tainted-node"]),
-    "C08": ctl(["updown", "all_annotscale", "all_scale"], ["updown", "updown@v2", "updown@v3", "lag", "conflict", "annot", "all_annotscale", "all_scale"],
+    "C08": ctl(["updown", "all_annotscale", "all_scale"], ["updown", "updown@v2", "lag", "conflict", "all_annotscale", "all_scale"],
                [D("down", faults=30, nodes=8), D("mix", faults=20)],
                [D("down", n=60, steps=100, procs=8, faults=30, nodes=8), D("mix", n=60, steps=100, procs=8, faults=20)],
                "non-trivial: a scan that tainted nodes, esp. leaving some untainted, with creation-time ties, with a failed write skipped",
